@@ -242,10 +242,10 @@ type cand struct {
 }
 
 type docInfo struct {
-	doc        string
-	cands      []cand
-	skipped    []bool   // per byte: the state machine below does not read Markdown there (HTML, code block)
-	kinds      []string // per line: fence, indented, def, inline
+	doc     string
+	cands   []cand
+	skipped []bool   // per byte: the state machine below does not read Markdown there (HTML, code block)
+	kinds   []string // per line: fence, indented, def, inline
 }
 
 var infoMemo = map[string]*docInfo{}
